@@ -38,7 +38,9 @@ def pow2_shift(r) -> int:
     if not mags:
         return 0
     top, low = max(mags), min(mags)
-    if 2.0 ** -20 <= top <= 2.0 ** 20:
+    # only SMALL problems are rescaled: the carriers' margin is relative above magnitude 1 already, and scaling a large problem down would push its small
+    # quantities (an unscaled `delta`) below the absolute floor of the margin
+    if top >= 2.0 ** -20:
         return 0
     k = -int(math.floor(math.log2(top)))
     # exactness needs every scaled quantity (and the intermediate differences) to stay far from the subnormal range and from overflow
@@ -80,7 +82,7 @@ def compare_batch(out: Outcome, runners: list[dets.Runner], rtol: float = 1e-9, 
             res[a:b] = [unscale_obs(o, k) for o in res[a:b]]
     validated = []
     for r, (a, b) in zip(runners, spans):
-        ok_steps = 0
+        ok_steps = tied_steps = 0
         r.mismatch_at = r.tie_at = None
         # statistics of the CUSUM family and of ADWIN are proportional to the data (and to delta): compare them relative to THAT scale
         floor = 1.0
@@ -102,10 +104,15 @@ def compare_batch(out: Outcome, runners: list[dets.Runner], rtol: float = 1e-9, 
             tie = toks[-1] == "tie=1"
             toks = toks[:-1]
             if tie:
-                r.tie_at = k
-                out.excluded_near_tie += 1
-                out.count("traces_truncated_at_tie")
-                break
+                # the model's three carriers disagree at this operation: a comparison within the tie margin decided something that is still visible.  The operation is
+                # not compared; the trace is compared again when the carriers coincide again (after a reset, or when a later strict comparison re-selects the same
+                # values) - a discrete disagreement is sticky in the driver, so such a trace stays excluded to its end or to its next reset
+                if r.tie_at is None:
+                    r.tie_at = k
+                    out.excluded_near_tie += 1
+                    out.count("traces_with_a_tie")
+                tied_steps += 1
+                continue
             same, why = cmp_tokens(impl, toks, rtol, floor, floors)
             if not same:
                 r.mismatch_at = k
@@ -115,6 +122,11 @@ def compare_batch(out: Outcome, runners: list[dets.Runner], rtol: float = 1e-9, 
                 break
             ok_steps += 1
         validated.append(ok_steps)
-        out.traces_validated += 1
+        # a trace counts as validated against the implementation only when most of it was compared
+        if 2 * ok_steps >= len(r.obs):
+            out.traces_validated += 1
+        else:
+            out.count("traces_mostly_excluded_by_ties")
         out.count("steps_compared", ok_steps)
+        out.count("steps_excluded_at_ties", tied_steps)
     return validated
